@@ -6,6 +6,7 @@ documented dunder storage of Buildables and plain Python containers.
 from __future__ import annotations
 
 import collections
+import dataclasses
 import enum
 import functools
 import inspect
@@ -152,12 +153,13 @@ class Canon:
           return r
       return (t.__name__, tuple(sorted((self.c(v) for v in x), key=repr)))
     if isinstance(x, functools.partial):
+      if self.normalize_partials:
+        # compared as a value (like a bare function): not numbered
+        return self._norm_partial(x, -1)
       r = self._visit(x)
       if r is not None:
         return r
       n = self.memo[id(x)] if self.numbering else -1
-      if self.normalize_partials:
-        return self._norm_partial(x, n)
       return ('partial', n, self.c(x.func), self.c(x.args), self.c(
           dict(x.keywords)))
     rec = _rec_type()
@@ -173,10 +175,18 @@ class Canon:
       return out
     if isinstance(x, enum.Enum):
       return ('enum', t.__module__, t.__qualname__, x.name)
+    if dataclasses.is_dataclass(x) and not isinstance(x, type):
+      r = self._visit(x)
+      if r is not None:
+        return r
+      n = self.memo[id(x)] if self.numbering else -1
+      return ('dataclass', t.__module__, t.__qualname__, n, tuple(
+          (f.name, self.c(getattr(x, f.name, '<unset>')))
+          for f in dataclasses.fields(x)))
     if isinstance(x, (type, types.FunctionType, types.BuiltinFunctionType,
                       types.MethodType)):
       if self.normalize_partials and not isinstance(x, type):
-        return ('fn', callable_key(x), (), ())
+        return ('fn', callable_key(x), ('tuple', ()), ())
       return ('callable', callable_key(x))
     if isinstance(x, types.ModuleType):
       return ('module', x.__name__)
